@@ -271,6 +271,7 @@ pub fn run(ctx: &mut Ctx) {
     ctx.run_suite(&IdleSuite);
     ctx.run_suite(&ConnectSuite);
     ctx.run_suite(&super::c14tls::HandshakeSuite);
+    ctx.run_suite(&super::c14sess::IdleCloseSuite);
     ctx.assume("virtual time: tokio paused clock with a persistent 0.5 ms offset so that timers fire slightly late, as real timers do");
     ctx.assume("TLS handshake timeout: real sockets and real time; a stalled client must be dropped within twice the timeout plus 1.5 s of scheduling slack");
 }
@@ -279,6 +280,7 @@ pub fn replay(ctx: &mut Ctx, suite: &str, case: &Value) -> bool {
     match suite {
         "pipe-idle-timer" => ctx.replay_suite(&IdleSuite, case),
         "establishment-timeout" => ctx.replay_suite(&ConnectSuite, case),
+        "session-idle-close" => ctx.replay_suite(&super::c14sess::IdleCloseSuite, case),
         "tls-handshake-timeout" => ctx.replay_suite(&super::c14tls::HandshakeSuite, case),
         _ => false,
     }
